@@ -24,7 +24,7 @@ blocked (`CC_ERR_ALLOC` / `CC_ERR_MAX_CAPACITY`, possible only for `add`, `add_a
 `trim_capacity`); then report (status, out-value, callback log) and content agree, the
 configuration is kept, the invariant is preserved, the ledger is balanced, nothing faults, and a call
 reporting any error status leaves the whole physical state unchanged. -/
-theorem step_refines (cfg : Cfg) (a : Arr) (op : Op) (m : Mem) (hinv : a.Inv) (hlive : 0 < m.live)
+theorem step_refines (cfg : Cfg) (a : Arr) (op : Op) (m : Mem) (hinv : a.Inv)
     (hsort : ∀ xs, (cfg.sortFn xs).length = xs.length) :
     (a.step cfg op m).1 = (Spec.Seq.step cfg a.abs op (a.step cfg op m).1.blocked).1 ∧
     (a.step cfg op m).2.1.abs = (Spec.Seq.step cfg a.abs op (a.step cfg op m).1.blocked).2 ∧
@@ -32,13 +32,13 @@ theorem step_refines (cfg : Cfg) (a : Arr) (op : Op) (m : Mem) (hinv : a.Inv) (h
     (a.step cfg op m).2.1.Inv ∧
     (a.step cfg op m).2.2.live = m.live ∧ (a.step cfg op m).2.2.fault = m.fault ∧
     (∀ st, (a.step cfg op m).1.st = some st → st ≠ .ok → (a.step cfg op m).2.1 = a) :=
-  Arr.step_spec cfg a op m hinv hlive hsort
+  Arr.step_spec cfg a op m hinv hsort
 
 /-- **C01, all histories, all allocator schedules.**  Running any history on the concrete array
 yields exactly the reports of the ideal list run on the same history (the ideal list being told
 which calls were blocked), ends in a state whose content is the ideal list's content, preserves
 the invariant, keeps the ledger balanced and never faults. -/
-theorem history_refines (cfg : Cfg) (ops : List Op) (a : Arr) (m : Mem) (hinv : a.Inv) (hlive : 0 < m.live)
+theorem history_refines (cfg : Cfg) (ops : List Op) (a : Arr) (m : Mem) (hinv : a.Inv)
     (hsort : ∀ xs, (cfg.sortFn xs).length = xs.length) :
     (a.run cfg ops m).1 = (Spec.Seq.run cfg a.abs ops ((a.run cfg ops m).1.map Out.blocked)).1 ∧
     (a.run cfg ops m).2.1.abs = (Spec.Seq.run cfg a.abs ops ((a.run cfg ops m).1.map Out.blocked)).2 ∧
@@ -47,7 +47,7 @@ theorem history_refines (cfg : Cfg) (ops : List Op) (a : Arr) (m : Mem) (hinv : 
   induction ops generalizing a m with
   | nil => exact ⟨rfl, rfl, hinv, rfl, rfl, rfl⟩
   | cons op ops ih =>
-    obtain ⟨s1, s2, s3, s4, s5, s6, _⟩ := step_refines cfg a op m hinv hlive hsort
+    obtain ⟨s1, s2, s3, s4, s5, s6, _⟩ := step_refines cfg a op m hinv hsort
     have ih' := ih (a.step cfg op m).2.1 (a.step cfg op m).2.2 s4 (by omega)
     obtain ⟨i1, i2, i3, i4, i5, i6⟩ := ih'
     simp only [Arr.run, Spec.Seq.run, List.map_cons, List.headD_cons, List.tail_cons]
@@ -57,12 +57,12 @@ theorem history_refines (cfg : Cfg) (ops : List Op) (a : Arr) (m : Mem) (hinv : 
 
 /-- **C01 on unblocked histories**: when no call of the history was blocked by the allocator or
 the capacity limit, the concrete array is observationally the ideal list, with nothing else to say. -/
-theorem history_ideal (cfg : Cfg) (ops : List Op) (a : Arr) (m : Mem) (hinv : a.Inv) (hlive : 0 < m.live)
+theorem history_ideal (cfg : Cfg) (ops : List Op) (a : Arr) (m : Mem) (hinv : a.Inv)
     (hsort : ∀ xs, (cfg.sortFn xs).length = xs.length)
     (hfree : ∀ o ∈ (a.run cfg ops m).1, o.blocked = none) :
     (a.run cfg ops m).1 = (Spec.Seq.run cfg a.abs ops (List.replicate ops.length none)).1 ∧
     (a.run cfg ops m).2.1.abs = (Spec.Seq.run cfg a.abs ops (List.replicate ops.length none)).2 := by
-  have h := history_refines cfg ops a m hinv hlive hsort
+  have h := history_refines cfg ops a m hinv hsort
   have hlen : (a.run cfg ops m).1.length = ops.length := Arr.run_length cfg ops a m
   have : (a.run cfg ops m).1.map Out.blocked = List.replicate ops.length none := by
     rw [← hlen]
@@ -78,20 +78,20 @@ theorem history_ideal (cfg : Cfg) (ops : List Op) (a : Arr) (m : Mem) (hinv : a.
 A7): `add` can only be blocked on an exactly full array, and then only by a refusing allocator or
 at the capacity limit (`Arr.AtLimit`: the requested capacity would need more than `CC_MAX_ELEMENTS`
 bytes, A10).  No assumption on the growth function. -/
-theorem add_succeeds (a : Arr) (x : Nat) (m : Mem) (hinv : a.Inv) (hlive : 0 < m.live)
+theorem add_succeeds (a : Arr) (x : Nat) (m : Mem) (hinv : a.Inv)
     (halloc : a.size = a.capacity → m.alloc.1 = true) (hmax : ¬ a.AtLimit) :
     (a.add x m).1 = .ok ∧ (a.add x m).2.1.abs = a.abs ++ [x] := by
-  rcases (Arr.add_spec a x m hinv hlive).1 with ⟨ok, habs, _⟩ | ⟨⟨hb, hfull⟩, _⟩
+  rcases (Arr.add_spec a x m hinv).1 with ⟨ok, habs, _⟩ | ⟨⟨hb, hfull⟩, _⟩
   · exact ⟨ok, habs⟩
   · rcases hb with ⟨_, h⟩ | ⟨_, h⟩
     · rw [halloc hfull] at h; simp at h
     · exact absurd h hmax
 
 /-- the same for `add_at` at every legal position -/
-theorem addAt_succeeds (a : Arr) (x i : Nat) (m : Mem) (hinv : a.Inv) (hlive : 0 < m.live) (hi : i ≤ a.size)
+theorem addAt_succeeds (a : Arr) (x i : Nat) (m : Mem) (hinv : a.Inv) (hi : i ≤ a.size)
     (halloc : a.size = a.capacity → m.alloc.1 = true) (hmax : ¬ a.AtLimit) :
     (a.addAt x i m).1 = .ok ∧ (a.addAt x i m).2.1.abs = a.abs.insertIdx i x := by
-  rcases (Arr.addAt_spec a x i m hinv hlive).1 with ⟨_, sp⟩ | ⟨hgt, _⟩
+  rcases (Arr.addAt_spec a x i m hinv).1 with ⟨_, sp⟩ | ⟨hgt, _⟩
   · rcases sp with ⟨ok, habs, _⟩ | ⟨⟨hb, hfull⟩, _⟩
     · exact ⟨ok, habs⟩
     · rcases hb with ⟨_, h⟩ | ⟨_, h⟩
@@ -101,17 +101,17 @@ theorem addAt_succeeds (a : Arr) (x i : Nat) (m : Mem) (hinv : a.Inv) (hlive : 0
 
 /-- **Growing never changes contents**: a successful `expand_capacity` keeps content, size and
 configuration, whatever the growth function returns -/
-theorem growth_keeps_content (a : Arr) (m : Mem) (hinv : a.Inv) (hlive : 0 < m.live)
+theorem growth_keeps_content (a : Arr) (m : Mem) (hinv : a.Inv)
     (h : (a.expandCapacity m).1 = .ok) :
     (a.expandCapacity m).2.1.abs = a.abs ∧ (a.expandCapacity m).2.1.size = a.size ∧
     (a.expandCapacity m).2.1.grow = a.grow := by
-  obtain ⟨e1, e2, e3, _⟩ := Arr.expandCapacity_ok a m hinv hlive h
+  obtain ⟨e1, e2, e3, _⟩ := Arr.expandCapacity_ok a m hinv h
   exact ⟨e1, e2, e3⟩
 
 /-- **Trimming never changes contents** (and a refused trim changes nothing at all) -/
-theorem trim_keeps_content (a : Arr) (m : Mem) (hinv : a.Inv) (hlive : 0 < m.live) :
+theorem trim_keeps_content (a : Arr) (m : Mem) (hinv : a.Inv) :
     (a.trimCapacity m).2.1.abs = a.abs ∧ (a.trimCapacity m).2.1.size = a.size := by
-  rcases (Arr.trimCapacity_spec a m hinv hlive).1 with ⟨_, h1, h2, _⟩ | ⟨_, _, h⟩
+  rcases (Arr.trimCapacity_spec a m hinv).1 with ⟨_, h1, h2, _⟩ | ⟨_, _, h⟩
   · exact ⟨h1, h2⟩
   · rw [h]; exact ⟨rfl, rfl⟩
 
